@@ -189,11 +189,11 @@ static auto binary_rt(std::string const& f, T x, T y, bool& known) -> std::strin
     return "";
 }
 
-// constexpr tables.  Functions that cast through an integer type get the SMALL inputs only.
+// constexpr tables.  Functions that return an integer type get the SMALL inputs only.
 template <typename T> static constexpr bool small_only(char const* n)
 {
     std::string_view s{n};
-    return s == "floor" || s == "ceil" || s == "trunc" || s == "round" || s == "lrint" || s == "llrint";
+    return s == "lrint" || s == "llrint";
 }
 template <typename T> struct CT {
     static constexpr std::size_t NS = ctab<T>::n_small;
